@@ -514,6 +514,72 @@ func Known(property, key, what string, witness func() error) {
 	}
 }
 
+type knownEntry struct {
+	Property string `json:"property"`
+	Key      string `json:"key"`
+	Status   string `json:"status"`
+	What     string `json:"what"`
+	Line     string `json:"line"`
+}
+
+var (
+	knownOnce sync.Once
+	knownList []knownEntry
+)
+
+func loadKnown() {
+	knownOnce.Do(func() {
+		p := os.Getenv("VERIF_KNOWN")
+		if p == "" {
+			p = "/verif/known_findings.json"
+		}
+		raw, err := os.ReadFile(p)
+		if err != nil {
+			return
+		}
+		var f struct {
+			Findings []knownEntry `json:"findings"`
+		}
+		if json.Unmarshal(raw, &f) == nil {
+			knownList = f.Findings
+		}
+	})
+}
+
+// IsKnown reports whether known_findings.json (committed, read-only at run
+// time) lists (property, key) with status "known". Generators use it to leave
+// the listed class out of the search (counting what they leave out with
+// Exclude); when the entry is absent or "fixed" the class is searched like
+// any other, so a fixed defect that returns is reported as a VIOLATION.
+func IsKnown(property, key string) bool {
+	loadKnown()
+	for _, e := range knownList {
+		if e.Property == property && e.Key == key && e.Status == "known" {
+			return true
+		}
+	}
+	return false
+}
+
+// ReportKnown replays the witness of a listed known finding (shard 0 only)
+// and prints the KNOWN-FINDING line when it still fails. It does nothing when
+// the finding is not listed as known.
+func ReportKnown(property, key string, witness func() error) {
+	if !IsKnown(property, key) {
+		return
+	}
+	if k, _ := Shard(); k != 0 {
+		return
+	}
+	what := key
+	for _, e := range knownList {
+		if e.Property == property && e.Key == key && e.What != "" {
+			what = e.What
+		}
+	}
+	Known(property, key, what, witness)
+}
+
 // Note appends free-form numbers to the evidence (merged by the launcher).
 func Note(property, key string, v any) {
 	d := OutDir()
